@@ -308,4 +308,76 @@ Section Sequence.
     destruct (steps o ofZ tbl g dssizes c (dnames (dims t)) t (k_axes c)) as [u|e]; [|discriminate].
     cbn [bind] in H. exists u. split; [reflexivity | exact H].
   Qed.
+
+  (* ---- the order of the dimensions ---- *)
+  Lemma lookupS_assoc_set1 {V} k k' (v : V) l :
+    lookupS k (assoc_set k' v l) = if String.eqb k k' then Some v else lookupS k l.
+  Proof.
+    unfold lookupS. induction l as [|[k0 v0] r IH]; simpl.
+    - destruct (String.eqb k k'); reflexivity.
+    - destruct (String.eqb k' k0) eqn:E0; simpl.
+      + apply String.eqb_eq in E0; subst k0. destruct (String.eqb k k'); reflexivity.
+      + destruct (String.eqb k k0) eqn:E1.
+        * apply String.eqb_eq in E1; subst k0. rewrite String.eqb_sym in E0. rewrite E0.
+          reflexivity.
+        * exact IH.
+  Qed.
+
+  Lemma lookup_fold_assoc_none d : forall (sh acc : list (string * string)),
+    ~ In d (map fst sh) ->
+    lookupS d (fold_left (fun a (q : string * string) => assoc_set (fst q) (snd q) a) sh acc) = lookupS d acc.
+  Proof.
+    induction sh as [|q sh IH]; intros acc H; [reflexivity|]. cbn [fold_left].
+    rewrite IH; [|intros Hin; apply H; right; exact Hin].
+    rewrite lookupS_assoc_set1.
+    destruct (String.eqb d (fst q)) eqn:E; [|reflexivity].
+    apply String.eqb_eq in E. exfalso. apply H. left. symmetry. exact E.
+  Qed.
+
+  Lemma mapM_fst_spec {T U} (f : T -> res U) : forall l r, mapM f l = Ok r -> Forall2 (fun x y => f x = Ok y) l r.
+  Proof.
+    induction l as [|x l IH]; intros r H; cbn [mapM] in H.
+    - inversion H; subst. constructor.
+    - destruct (f x) as [y|e] eqn:F; [|discriminate]. cbn [bind] in H.
+      destruct (mapM f l) as [ys|e]; [|discriminate]. cbn [bind] in H. inversion H; subst.
+      constructor; [exact F | apply IH; reflexivity].
+  Qed.
+
+  (* C01: the result has exactly the input's dimensions, in the input's order, except that the
+     dimension of each operated axis is replaced, in place, by the dimension of that axis the
+     result lies on; a dimension that belongs to no operated axis keeps its place and name *)
+  Theorem grid_op_dim_order tbl (g : grid A) dssizes c (t : tensor A) r :
+    grid_op o ofZ tbl g dssizes c t = Ok r ->
+    List.length (dims r) = List.length (dims t) /\
+    forall i d, nth_error (dnames (dims t)) i = Some d ->
+      (forall axn a pd, In axn (k_axes c) -> find_axis g axn = Ok a ->
+                        get_position_name a (dnames (dims t)) = Ok pd -> snd pd <> d) ->
+      nth_error (dnames (dims r)) i = Some d.
+  Proof.
+    intros H. destruct (grid_op_sequence tbl g dssizes c t r H) as (u & _ & R).
+    unfold restore_order in R.
+    destruct (mapM _ (k_axes c)) as [sh|e] eqn:M; [|discriminate]. cbn [bind] in R. inversion R; subst r. clear R.
+    cbn [transpose dims]. split; [unfold dnames; rewrite !map_length; reflexivity|].
+    intros i d Hi Hno.
+    assert (DN : forall (f : string -> string) (sz : string -> nat) (l : list string),
+               dnames (map (fun x => (f x, sz x)) l) = map f l).
+    { intros f sz l. unfold dnames. rewrite map_map. reflexivity. }
+    rewrite DN, nth_error_map, nth_error_map, Hi. cbn [option_map]. f_equal.
+    rewrite lookup_fold_assoc_none; [reflexivity|].
+    intros Hin. apply in_map_iff in Hin. destruct Hin as ([old new] & Hfst & Hq). cbn [fst] in Hfst. subst old.
+    apply mapM_fst_spec in M.
+    assert (X : exists axn, In axn (k_axes c) /\
+                (do a <- find_axis g axn;
+                 do old <- get_position_name a (dnames (dims t));
+                 do new0 <- get_position_name a (dnames (dims u));
+                 Ok (snd old, snd new0)) = Ok (d, new)).
+    { clear - M Hq. induction M as [|x y l l' Hxy _ IH]; [contradiction|].
+      destruct Hq as [->|Hq]; [exists x; split; [left; reflexivity | exact Hxy]|].
+      destruct (IH Hq) as (axn & Hin & E). exists axn. split; [right; exact Hin | exact E]. }
+    destruct X as (axn & Hin & E).
+    destruct (find_axis g axn) as [a|e] eqn:Fa; [|discriminate]. cbn [bind] in E.
+    destruct (get_position_name a (dnames (dims t))) as [pd|e] eqn:Gp; [|discriminate]. cbn [bind] in E.
+    destruct (get_position_name a (dnames (dims u))) as [pn|e]; [|discriminate]. cbn [bind] in E.
+    inversion E; subst. apply (Hno axn a pd Hin Fa Gp). reflexivity.
+  Qed.
 End Sequence.
